@@ -1247,7 +1247,7 @@ pub fn run(args: &Args) {
     let focus = args.extra.iter().position(|a| a == "--focus").and_then(|i| args.extra.get(i + 1)).cloned().unwrap_or_else(|| "c06".to_string());
     let mut rng = Rng::new(args.seed ^ fnv64(&[focus.as_bytes()]));
     out.comment(&format!("history focus={focus} seed={} thorough={}", args.seed, args.thorough));
-    let n = if args.thorough { 600 } else { 40 };
+    let n = if args.thorough { 1500 } else { 120 };
     let only: Option<usize> = args.extra.iter().position(|a| a == "--only-case").and_then(|i| args.extra.get(i + 1)).and_then(|x| x.parse().ok());
     for case_index in 0..n {
         let mut r = rng.fork();
